@@ -529,7 +529,7 @@ func (o *cmC07) beforeTx(m *chainMachine, msg sdk.Msg, signer *cmActor) {
 	var firstDesc string
 	for i := 0; i < 8; i++ {
 		cctx, _ := m.ctx().CacheContext()
-		cctx = cctx.WithEventManager(sdk.NewEventManager())
+		cctx = cctx.WithEventManager(sdk.NewEventManager()).WithGasMeter(sdk.NewInfiniteGasMeter())
 		var out bytes.Buffer
 		func() {
 			defer func() {
@@ -556,6 +556,8 @@ func (o *cmC07) beforeTx(m *chainMachine, msg sdk.Msg, signer *cmActor) {
 			out.Write(bz)
 			out.WriteByte('#')
 		}
+		// gas is part of the transaction result (it is hashed into the block's results hash)
+		fmt.Fprintf(&out, "GAS:%d|", cctx.GasMeter().GasConsumed())
 		out.WriteString("STATE:")
 		out.Write(m.dumpCtx(cctx))
 		if i == 0 {
